@@ -236,6 +236,8 @@ pub fn threads_child(args: &[String]) -> i32 {
     let mut violations: Vec<serde_json::Value> = Vec::new();
     let mut points_total = 0u64;
     let mut diverged: Option<String> = None;
+    let mut blocked_schedules = 0u64;
+    let mut too_many_blocked = false;
     let forked = args.get(3).map(|s| s.as_str()) == Some("forked");
     let explore = if forked { sched::explore_threads_forked } else { sched::explore_threads::<String> };
     let stats = explore(idxs.len(), body.clone(), *bound, 400, cap, &mut |choices, x| {
@@ -243,28 +245,46 @@ pub fn threads_child(args: &[String]) -> i32 {
         hashes.push(h64(&(j, choices)));
         if let Some(d) = &x.diverged {
             diverged = Some(d.clone());
+            return false; // stop at once: the rest of this exploration cannot be trusted
         }
         if x.deadlock {
-            violations.push(json!({"n": violations.len(), "what": "deadlock-under-controlled-schedule", "case": {"threads": names, "schedule": choices}, "expected": "all threads finish", "observed": "no progress for 20 s"}));
-            return;
+            violations.push(json!({"n": violations.len(), "what": "deadlock", "case": {"threads": names, "schedule": choices}, "expected": "all threads finish", "observed": "threads did not finish even after the scheduler released control"}));
+            return violations.len() < 4;
+        }
+        if x.blocked {
+            // infeasible schedule (preempted inside a critical section): outcomes were produced free-running
+            blocked_schedules += 1;
+            if blocked_schedules > 12 {
+                too_many_blocked = true;
+                return false;
+            }
         }
         distinct.insert(x.outcomes.clone());
         if x.outcomes != expect && violations.len() < 16 {
             violations.push(json!({"n": violations.len(), "what": "outcome-depends-on-thread-schedule", "case": {"threads": names, "schedule": choices, "job": j}, "expected": format!("{:?}", expect), "observed": format!("{:?}", x.outcomes)}));
         }
+        true
     });
     if let Some(d) = diverged {
         if !forked {
             // executions influenced each other through process state (the unchanged library has none that
             // matters): explore again with every execution in its own forked process
             println!("NOTE: in-process exploration diverged ({}); re-exploring with one process per execution", d);
-            let mut a2 = args.to_vec();
-            while a2.len() < 3 {
-                a2.push("quick".into());
-            }
-            a2.truncate(3);
-            a2.push("forked".into());
-            return threads_child(&a2);
+            // a fresh process: this one may hold leaked, blocked threads and must not fork
+            let me = std::env::current_exe().unwrap();
+            let out = std::process::Command::new(me)
+                .arg("--c18-threads")
+                .arg(j.to_string())
+                .arg(if thorough { "thorough" } else { "quick" })
+                .arg("forked")
+                .output();
+            return match out {
+                Ok(o) => {
+                    print!("{}", String::from_utf8_lossy(&o.stdout));
+                    o.status.code().unwrap_or(2)
+                }
+                Err(_) => 2,
+            };
         }
         println!("MACHINERY-ERROR: thread scheduler lost control: {}", d);
         return 2;
@@ -286,7 +306,7 @@ pub fn threads_child(args: &[String]) -> i32 {
     println!(
         "{}",
         json!({"job": j, "label": label, "threads": names, "preemption_bound": if *bound >= 1000 { json!("unbounded") } else { json!(bound) },
-               "schedules": stats.schedules, "max_scheduling_points": stats.max_points, "points_total": points_total, "capped": stats.capped,
+               "schedules": stats.schedules, "max_scheduling_points": stats.max_points, "points_total": points_total, "capped": stats.capped || too_many_blocked, "blocked_schedules": blocked_schedules,
                "distinct_outcome_vectors": vectors.len(), "outcome_vectors": vectors, "schedule_hashes": hashes, "violations": violations})
     );
     0
@@ -508,6 +528,7 @@ pub fn run(ctx: &Ctx) -> Report {
             if x.outcomes.iter().any(|o| o == "corrupt") {
                 caught = true;
             }
+            true
         });
         if !caught {
             machinery_error(&format!("thread-schedule canary was not caught ({} schedules)", stats.schedules));
